@@ -71,6 +71,7 @@ def menu_paths(doc):
                 paths.append(toks + ["00"])
                 # the pointer extension '#<index>' (index of an element) is not an RFC 6901 array index
                 paths.append(toks + ["#0"])
+                paths.append(toks + ["#%d" % n])
                 # canonical digits followed by a line break are not an index (int() and '$' both forgive the line break)
                 paths.append(toks + ["0\n"])
         else:
